@@ -29,18 +29,31 @@ def log(*a):
     print("[check]", *a, flush=True)
 
 
-def run(cmd, timeout=None, cwd=None, env=None, stdin=None, stdout_path=None):
+def _big_stack():
+    import resource
+    try:
+        resource.setrlimit(resource.RLIMIT_STACK, (resource.RLIM_INFINITY, resource.RLIM_INFINITY))
+    except Exception:
+        try:
+            soft, hard = resource.getrlimit(resource.RLIMIT_STACK)
+            resource.setrlimit(resource.RLIMIT_STACK, (hard, hard))
+        except Exception:
+            pass
+
+
+def run(cmd, timeout=None, cwd=None, env=None, stdin=None, stdout_path=None, big_stack=False):
     """Run a command, return (rc, output-as-text)."""
     t0 = time.time()
+    pre = _big_stack if big_stack else None
     try:
         if stdout_path:
             with open(stdout_path, "wb") as fo:
                 p = subprocess.run(cmd, cwd=cwd, env=env, stdin=stdin, stdout=fo,
-                                   stderr=subprocess.PIPE, timeout=timeout)
+                                   stderr=subprocess.PIPE, timeout=timeout, preexec_fn=pre)
             out = p.stderr.decode("utf-8", "replace")
         else:
             p = subprocess.run(cmd, cwd=cwd, env=env, stdin=stdin, stdout=subprocess.PIPE,
-                               stderr=subprocess.STDOUT, timeout=timeout)
+                               stderr=subprocess.STDOUT, timeout=timeout, preexec_fn=pre)
             out = p.stdout.decode("utf-8", "replace")
         rc = p.returncode
     except subprocess.TimeoutExpired as e:
@@ -247,7 +260,7 @@ def ensure_runner():
 def run_model(family, trace_path, out_path, timeout=1800):
     exe = os.path.join(BUILD, "modelrun")
     with open(trace_path, "rb") as fi:
-        rc, err = run([exe, family], stdin=fi, stdout_path=out_path, timeout=timeout)
+        rc, err = run([exe, family], stdin=fi, stdout_path=out_path, timeout=timeout, big_stack=True)
     return rc, err
 
 
